@@ -210,7 +210,7 @@ func mcWorkload(c *kit.Case, p mcPlan, lk int, sites []*mcSite) bool {
 // capacity was lost); with n inside, a further request must be answered 503.
 func (s *mcSite) probe(n int, phase string) {
 	m := s.m
-	m.c.Obs(m.prim+"_quiescence_probes", 1)
+	m.probeObs()
 	release := make(chan struct{})
 	var wg sync.WaitGroup
 	defer func() {
@@ -283,7 +283,8 @@ func (s *mcSite) probe(n int, phase string) {
 	select {
 	case a := <-ans:
 		code, err = a.code, a.err
-	case <-time.After(stuckProbeAt):
+	case <-time.After(patience()):
+		patienceExpired()
 		// "refused or blocked": a request that is neither answered nor inside the handler is blocked
 		if xq.entered.Load() == 0 {
 			m.c.Obs(m.prim+"_probe_extra_request_blocked_not_refused", 1)
